@@ -105,3 +105,34 @@ reg("C17",
     rule="one evaluation = one connection history with the counter monitor sampling after every step; non-trivial = a refusal, split frame or truncating receive occurred; "
          "distinct = distinct (transport, mode, plan, sizes, observed-event bits) signatures",
     assumptions=["sends that fail with a connection errno may already be counted in from_app (accepted, then the flush failed): slack of one message there"])
+
+EVLOOP = ENGINE + ["vdns.c", "vnet.c", "evloop.c"]
+
+reg("C04",
+    title="event-loop contract is live (bounded form): no lost wake-ups, blocking calls return",
+    technique="executable reactor following the documented await/poll/act protocol; logical-deadlock oracle (no xcm fd readable, no XCM timer armed, resolver idle, goals still open for 500 ms) over ledgers and kernel queue state; blocking calls in threads under a watchdog; shim-injected EAGAIN/short I/O; stub resolver and no-answer/refusing candidates for the resolving and connecting phases; ASan+UBSan",
+    level_text="Agents act only when poll() reports their xcm fd readable (plus the one speculative attempt the documentation allows). Whenever nothing is readable the monitor evaluates the goals from ground truth (ledgers of accepted sends, counters from_app/to_lower, peer closes): if goals are open while no XCM timerfd is armed and the stub resolver has nothing scheduled for 500 ms, nothing can wake the system again and a lost wake-up is reported with per-endpoint kernel queue state. Unbounded eventuality is not decided; this is the bounded restatement of DESIGN.md section 3/C04. Blocking connect/accept/send/receive/close run in threads with a 40 s watchdog.",
+    level_note="Held on the executions produced. Phases covered: resolving (stub: synchronous, after n process calls, after t ms), TCP connecting (accepting, first candidate refusing or not answering with tcp.connect_timeout, happy eyeballs), TLS handshake under injected refusals, ready, peer close.",
+    harness=EVLOOP, exe="h_evloop",
+    stages=[dict(variant="asan", cases={"quick": 550, "thorough": 11000}, timeout={"quick": 900, "thorough": 3400})],
+    floors={"quick": {"reactor_completed": 300, "close_phase_completed": 250, "wakeups": 20000, "waits_for_xcm_timer_or_resolver": 500,
+                      "blocking_scenarios_completed": 30, "injected_faults_below": 5000, "distinct_nontrivial": 80},
+            "thorough": {"reactor_completed": 6000, "close_phase_completed": 5000, "blocking_scenarios_completed": 600, "distinct_nontrivial": 200}},
+    rule="one evaluation = one client/server scenario driven by the reactor (transport x traffic shape x injection plan x resolver delivery x candidate topology x condition policy) or one blocking-thread scenario; "
+         "non-trivial = the reactor completed with at least 3 wake-ups taken; distinct = distinct parameter signatures",
+    assumptions=["loopback delivers within 500 ms when nothing else is pending (delayed ACK 40 ms, Nagle disabled by XCM)",
+                 "attribute reads used by the monitor (counters) are passive"])
+
+reg("C16",
+    title="readiness is sound: one stable descriptor that is quiet when idle",
+    technique="readiness probes at engine-confirmed quiescent points of reactor-driven histories: poll(xcm_fd, POLLIN|POLLOUT|POLLPRI, 0) sampled for each awaited condition, descriptor identity tracked through the shim's ledger; ASan+UBSan",
+    level_text="After a reactor-driven history (all transports, partial I/O plans) has delivered everything and xcm_finish succeeded on both ends, each endpoint is probed: condition 0 and RECEIVABLE-after-EAGAIN must stay unreadable over several samples, SENDABLE and R|S must be readable on the immediately following poll, data waiting in the kernel buffer or already decrypted inside the TLS layer must make RECEIVABLE readable at once, the server socket must be quiet with an empty queue; every poll must report nothing but POLLIN; xcm_fd must return the creation-time number and the shim must still show it as the epoll instance XCM created.",
+    level_note="One spurious wake-up that a following EAGAIN receive silences is tolerated (TLS: ssl_condition==0 after a write, TLS 1.3 tickets), persistence is flagged.",
+    harness=EVLOOP, exe="h_evloop",
+    stages=[dict(variant="asan", cases={"quick": 550, "thorough": 11000}, timeout={"quick": 900, "thorough": 3400})],
+    floors={"quick": {"quiescent_pairs_probed": 250, "probe_cond0": 500, "probe_receivable_idle": 500, "probe_sendable_met": 900,
+                      "probe_receivable_met_kernel": 500, "probe_receivable_met_inside_tls": 100, "probe_server_idle": 250, "fd_identity_checks": 1000, "distinct_nontrivial": 80},
+            "thorough": {"quiescent_pairs_probed": 5000, "probe_receivable_met_inside_tls": 2000, "distinct_nontrivial": 200}},
+    rule="one evaluation = one reactor-driven history ending in a quiescent pair which is then probed (both connection ends and the server socket); "
+         "non-trivial = the history completed with at least 3 wake-ups; distinct = distinct parameter signatures",
+    assumptions=["quiescence is established by the engine: ledgers equal, from_app == to_lower, xcm_finish == 0 on both ends"])
